@@ -5,6 +5,7 @@ package main
 
 import (
 	"fmt"
+	"sort"
 	"go/ast"
 	"go/parser"
 	"go/types"
@@ -63,6 +64,7 @@ type Contract struct {
 	Abstract     bool // body not verified (interface / extern)
 	Lemmas       []*Clause
 	Provenance   []string // interface-typed parameters that carry the fidRef they were loaded from
+	BridgeEnsures []*Clause // assumed at call sites, not proved against the body (abstraction bridge)
 	Impls        bool     // interface contract: every implementation in /repo is verified against it
 	IfaceType    types.Type
 	IfaceSig     *types.Signature
@@ -79,11 +81,11 @@ type Define struct {
 }
 
 var headRe = regexp.MustCompile(`^(func|interface|extern|fparam|define|declare|lemma|inline|constglobal|guard|refcount|reflink|reftable|ownfield|ghostvar)\s+(.*)$`)
-var clauseRe = regexp.MustCompile(`^(requires|ensures|panic_ensures|invariant|decreases|lemma)(\[[A-Za-z0-9, ]*\])?\s*(@[A-Za-z0-9_.\-]+)?\s+(.*)$`)
+var clauseRe = regexp.MustCompile(`^(requires|ensures|bridge_ensures|panic_ensures|invariant|decreases|lemma)(\[[A-Za-z0-9, ]*\])?\s*(@[A-Za-z0-9_.\-]+)?\s+(.*)$`)
 
 // ParseContracts reads //@ lines from text (comment-only Go or .spec file).
 func ParseContracts(file, text, pkg string, out *ContractSet) error {
-	lines := expandGroups(strings.Split(text, "\n"))
+	lines := expandGroups(expandLayouts(strings.Split(text, "\n")))
 	var cur *Contract
 	var lastClause *Clause
 	for ln, raw := range lines {
@@ -257,6 +259,8 @@ func ParseContracts(file, text, pkg string, out *ContractSet) error {
 				cur.Requires = append(cur.Requires, cl)
 			case "ensures":
 				cur.Ensures = append(cur.Ensures, cl)
+			case "bridge_ensures":
+				cur.BridgeEnsures = append(cur.BridgeEnsures, cl)
 			case "panic_ensures":
 				cur.PanicEnsures = append(cur.PanicEnsures, cl)
 			case "lemma":
@@ -681,7 +685,11 @@ func expandGroups(lines []string) []string {
 			cur = ""
 		}
 		if cur != "" {
-			if body != "" {
+			if strings.HasPrefix(body, "use ") {
+				for _, g := range strings.Fields(body[4:]) {
+					groups[cur] = append(groups[cur], groups[strings.Trim(g, ",")]...)
+				}
+			} else if body != "" {
 				groups[cur] = append(groups[cur], raw)
 			}
 			out = append(out, "")
@@ -696,4 +704,201 @@ func expandGroups(lines []string) []string {
 		out = append(out, raw)
 	}
 	return out
+}
+
+// expandLayouts implements the wire-layout DSL (DESIGN.md 2.3):
+//   //@ record T = f:kind ...          sub-record (QID, Attr, ...): codec contracts + spec functions
+//   //@ layout T = f:kind ...          message type: the same
+//   //@ msgtype T = N                   contract of (*T).typ
+// kinds: u8 u16 u32 u64 (integer fields, possibly of a named type), fid32
+// (64-bit fid on 4 bytes), perm32 (FileMode masked to 07777 both ways), str
+// (2-byte length + bytes), sub (a field whose type has its own record line),
+// mask64:F / mask32:F (struct of bools packed by spec function F).
+// A field written "-" for its name denotes the promoted embedded struct.
+func expandLayouts(lines []string) []string {
+	var out []string
+	for _, raw := range lines {
+		s := strings.TrimSpace(raw)
+		if !strings.HasPrefix(s, "//@") {
+			out = append(out, raw)
+			continue
+		}
+		body := strings.TrimSpace(s[3:])
+		switch {
+		case strings.HasPrefix(body, "msgtype "):
+			parts := strings.SplitN(body[8:], "=", 2)
+			if len(parts) != 2 {
+				out = append(out, raw)
+				continue
+			}
+			t, n := strings.TrimSpace(parts[0]), strings.TrimSpace(parts[1])
+			out = append(out, "//@ func (*"+t+").typ", "//@   ensures[C01,C06] @protocol-number result == "+n, "//@   nopanic")
+		case strings.HasPrefix(body, "layout "), strings.HasPrefix(body, "record "):
+			parts := strings.SplitN(body[7:], "=", 2)
+			if len(parts) != 2 {
+				out = append(out, raw)
+				continue
+			}
+			t := strings.TrimSpace(parts[0])
+			var fs [][2]string
+			for _, f := range strings.Fields(parts[1]) {
+				kv := strings.SplitN(f, ":", 2)
+				if len(kv) == 2 {
+					fs = append(fs, [2]string{kv[0], kv[1]})
+				}
+			}
+			out = append(out, layoutLines(t, fs)...)
+		default:
+			out = append(out, raw)
+		}
+	}
+	return out
+}
+
+func layoutLines(t string, fs [][2]string) []string {
+	enc, dec := "s", "r"
+	var wf, same, fits, lits []string
+	mods := map[string]bool{}
+	cur := "s" // remaining sequence while parsing
+	for _, f := range fs {
+		name, kind := f[0], f[1]
+		sub, sub2 := "", ""
+		if i := strings.IndexByte(kind, ':'); i >= 0 {
+			kind, sub = kind[:i], kind[i+1:]
+			if j := strings.IndexByte(sub, ':'); j >= 0 {
+				sub, sub2 = sub[:j], sub[j+1:]
+			}
+		}
+		fld := "m." + name
+		xfld := "x." + name
+		if name == "-" {
+			fld, xfld = "m", "x"
+		}
+		val := ""
+		switch kind {
+		case "u8", "u16", "u32", "u64":
+			w := kind[1:]
+			enc = fmt.Sprintf("snoc%s(%s, uint%s(%s))", w, enc, w, fld)
+			same = append(same, xfld+" == "+fld)
+			fits = append(fits, fmt.Sprintf("has%s(%s)", w, cur))
+			val = fmt.Sprintf("conv(take%s(%s))", w, cur)
+			cur = fmt.Sprintf("drop%s(%s)", w, cur)
+		case "fid32":
+			enc = fmt.Sprintf("snoc32(%s, uint32(%s))", enc, fld)
+			same = append(same, xfld+" == fid(uint32("+fld+"))")
+			fits = append(fits, "has32("+cur+")")
+			val = "fid(take32(" + cur + "))"
+			cur = "drop32(" + cur + ")"
+		case "perm32":
+			enc = fmt.Sprintf("snoc32(%s, uint32(%s))", enc, fld)
+			same = append(same, xfld+" == "+fld+" & permissionsMask")
+			fits = append(fits, "has32("+cur+")")
+			val = "FileMode(take32(" + cur + ")) & permissionsMask"
+			cur = "drop32(" + cur + ")"
+		case "str":
+			enc = fmt.Sprintf("snocstr(%s, string(%s))", enc, fld)
+			same = append(same, xfld+" == "+fld)
+			wf = append(wf, "len("+fld+") <= 65535")
+			fits = append(fits, "hasstr("+cur+")")
+			val = "conv(takestr(" + cur + "))"
+			cur = "dropstr(" + cur + ")"
+		case "sub":
+			enc = fmt.Sprintf("enc_%s(%s, %s)", sub, enc, fld)
+			same = append(same, fmt.Sprintf("same_%s(%s, %s)", sub, xfld, fld))
+			wf = append(wf, fmt.Sprintf("wf_%s(%s)", sub, fld))
+			mods[sub] = true
+			fits = append(fits, fmt.Sprintf("fits_%s(%s)", sub, cur))
+			val = fmt.Sprintf("parse_%s(%s)", sub, cur)
+			cur = fmt.Sprintf("rest_%s(%s)", sub, cur)
+		case "mask64", "mask32":
+			w := kind[4:]
+			enc = fmt.Sprintf("snoc%s(%s, %s(%s))", w, enc, sub, fld)
+			same = append(same, xfld+" == "+fld)
+			fits = append(fits, fmt.Sprintf("has%s(%s)", w, cur))
+			val = fmt.Sprintf("%s(take%s(%s))", sub2, w, cur)
+			cur = fmt.Sprintf("drop%s(%s)", w, cur)
+		}
+		if name == "-" {
+			lits = append(lits, "-:"+val)
+		} else {
+			lits = append(lits, name+": "+val)
+		}
+	}
+	// encoders mask permission fields
+	encW := enc
+	for _, f := range fs {
+		if f[1] == "perm32" {
+			encW = strings.Replace(encW, "uint32(m."+f[0]+")", "uint32(m."+f[0]+" & permissionsMask)", 1)
+		}
+	}
+	for i := len(fs) - 1; i >= 0; i-- {
+		name, kind := fs[i][0], fs[i][1]
+		sub := ""
+		if j := strings.IndexByte(kind, ':'); j >= 0 {
+			kind, sub = kind[:j], kind[j+1:]
+			if k := strings.IndexByte(sub, ':'); k >= 0 {
+				sub = sub[:k]
+			}
+		}
+		fld := "m." + name
+		if name == "-" {
+			fld = "m"
+		}
+		switch kind {
+		case "u8", "u16", "u32", "u64":
+			dec = fmt.Sprintf("cons%s(uint%s(%s), %s)", kind[1:], kind[1:], fld, dec)
+		case "fid32", "perm32":
+			dec = fmt.Sprintf("cons32(uint32(%s), %s)", fld, dec)
+		case "str":
+			dec = fmt.Sprintf("consstr(string(%s), %s)", fld, dec)
+		case "sub":
+			dec = fmt.Sprintf("dec_%s(%s, %s)", sub, fld, dec)
+		case "mask64", "mask32":
+			dec = fmt.Sprintf("cons%s(%s(%s), %s)", kind[4:], sub, fld, dec)
+		}
+	}
+	if len(wf) == 0 {
+		wf = []string{"true"}
+	}
+	if len(same) == 0 {
+		same = []string{"true"}
+	}
+	if len(fits) == 0 {
+		fits = []string{"true"}
+	}
+	parse := t + "{" + strings.Join(lits, ", ") + "}"
+	if len(lits) == 1 && strings.HasPrefix(lits[0], "-:") {
+		parse = lits[0][2:]
+	}
+	modl := "type:" + t + ", $rd, b.overflow, b.data"
+	var subs []string
+	for sb := range mods {
+		subs = append(subs, sb)
+	}
+	sort.Strings(subs)
+	for _, sb := range subs {
+		modl += ", type:" + sb
+	}
+	return []string{
+		"//@ define wf_" + t + "(m " + t + ") bool = " + strings.Join(wf, " && "),
+		"//@ define enc_" + t + "(s seq, m " + t + ") seq = " + encW,
+		"//@ define dec_" + t + "(m " + t + ", r seq) seq = " + dec,
+		"//@ define same_" + t + "(x " + t + ", m " + t + ") bool = " + strings.Join(same, " && "),
+		"//@ define fits_" + t + "(s seq) bool = " + strings.Join(fits, " && "),
+		"//@ define parse_" + t + "(s seq) " + t + " = " + parse,
+		"//@ define rest_" + t + "(s seq) seq = " + cur,
+		"//@ func (*" + t + ").encode",
+		"//@   requires[C01] @strings-fit-their-16-bit-count wf_" + t + "(*self)",
+		"//@   modifies $wr, b.data, arrays(byte)",
+		"//@   ensures[C01] @wire-layout wr(b) == enc_" + t + "(old(wr(b)), old(*self))",
+		"//@   ensures[C01] @other-buffers-untouched sameWrExcept(b)",
+		"//@   nopanic",
+		"//@ func (*" + t + ").decode",
+		"//@   modifies " + modl,
+		"//@   ensures[C01,C18] @fields-are-a-function-of-the-frame !old(b.overflow) && fits_" + t + "(old(rd(b))) ==> *self == parse_" + t + "(old(rd(b))) && rd(b) == rest_" + t + "(old(rd(b))) && !b.overflow",
+		"//@   ensures[C01,C18] @decodes-what-was-encoded forall(m, " + t + ", forall(R, seq, wf_" + t + "(m) && !old(b.overflow) && old(rd(b)) == dec_" + t + "(m, R) ==> same_" + t + "(*self, m) && rd(b) == R && !b.overflow))",
+		"//@   ensures[C02,C18] @overrun-is-sticky old(b.overflow) ==> b.overflow",
+		"//@   ensures[C01] @other-buffers-untouched sameRdExcept(b)",
+		"//@   nopanic",
+	}
 }
